@@ -16,7 +16,9 @@ X.HOSTS.update({'hi': ('xn--bcher-kva.test', '10.0.1.1'), 'h4': ('10.0.1.2', '10
                 # a host whose name merely ends in another host's name (a sub-domain of h1, and a look-alike)
                 'hs': ('sub.h1.test', '10.0.1.3'), 'hx': ('xh1.test', '10.0.1.4'),
                 # two hosts given as address literals that end alike (an address has no domain hierarchy)
-                'ia': ('10.0.2.7', '10.0.2.7'), 'ib': ('10.9.2.7', '10.9.2.7')})
+                'ia': ('10.0.2.7', '10.0.2.7'), 'ib': ('10.9.2.7', '10.9.2.7'),
+                # host names without a dot, and one under ".local" (http.cookiejar's "effective request-host")
+                'na': ('intranet', '10.0.3.1'), 'nb': ('otherhost', '10.0.3.2'), 'nl': ('printer.local', '10.0.3.3')})
 
 UI = {'none': ('', None), 'user': ('user@', None), 'userpw': ('user:pw@', ('user', 'pw')),
       'enc': ('us%40er:p%3Aw@', ('us@er', 'p:w')), 'crlf': ('u%0d%0a:p%0d%0a@', ('u\r\n', 'p\r\n')),
@@ -32,7 +34,9 @@ HOST = {'plain': ('h1.test', 'h1', 'h1.test'), 'upper': ('H1.TEST', 'h1', 'h1.te
         'pcttab': ('h1%09x.test', 'h1', 'h1%09x.test')}
 # 'xdef': an explicit port that is the default of ANOTHER scheme (must still be named in Host)
 PORT = {'none': ('', 'def'), 'default': (':80', 'def'), 'other': (':8080', 'alt'), 'padded': (':080', 'def'),
-        'xdef': (':443', 'alt')}
+        'xdef': (':443', 'alt'),
+        # port 0 is a port like any other in a URL (nothing listens there): not a spelling of the default port
+        'zero': (':0', 'zero')}
 # text -> acceptable spellings on the wire
 PATH = {'p': ('/p', ['/p']), 'empty': ('', ['/']), 'slash': ('/', ['/']), 'space': ('/a b', ['/a%20b']),
         'crlf': ('/a%0D%0Ab', ['/a%0D%0Ab', '/a%0d%0ab']), 'delims': ('/%2F%3F%23', ['/%2F%3F%23', '/%2f%3f%23']),
@@ -54,7 +58,7 @@ def render(c):
 def expect(c):
     host = HOST[c['host']]
     pc = PORT[c['port']][1]
-    auth = host[2] + (PORT[c['port']][0] if pc == 'alt' else '')
+    auth = host[2] + (PORT[c['port']][0] if pc in ('alt', 'zero') else '')
     targets = [p + q for p in PATH[c['path']][1] for q in QUERY[c['query']][1]]
     if c['path'] == 'empty' and c['query'] != 'none':
         targets = ['/' + q for q in QUERY[c['query']][1]]
@@ -264,7 +268,7 @@ def run_text_cases(chk, quick):
     for c in cases:
         text = render(c)
         for use in ('start', 'loc302', 'loc307', 'referer', 'referer307', 'loc302p', 'loc307p'):
-            if use.endswith('p') and (c['ui'] != 'none' or c['host'] not in ('plain', 'upper', 'pctcrlf', 'pcttab') or c['port'] == 'other'):
+            if use.endswith('p') and (c['ui'] != 'none' or c['host'] not in ('plain', 'upper', 'pctcrlf', 'pcttab') or c['port'] in ('other', 'zero')):
                 continue        # through a plain HTTP proxy (absolute-form target): URLs without user-info on the known host
             if use in ('referer', 'referer307') and (c['ui'] == 'none' or c['host'] != 'plain' or c['port'] not in ('none', 'default')):
                 continue        # as a referring page: the URLs with user-info, on the ordinary host
@@ -278,7 +282,9 @@ def run_text_cases(chk, quick):
         sc = {'text': {'cookie': 'host-only->' + target}, 'use': 'cookie', 'text_class': 'cookie=related-host-' + target}
         runs.append(('text/cookie', sc, run_related_host_case(target)))
     for setter, target, domain in (('ia', 'ib', '.2.7'), ('ia', 'ib', '2.7'), ('h1', 'h2', '.test'), ('h1', 'h2', 'test'),
-                                   ('h1', 'hx', 'h1.test')):
+                                   ('h1', 'hx', 'h1.test'),
+                                   ('na', 'nb', '.local'), ('na', 'nb', 'local'), ('na', 'nl', '.local'),
+                                   ('na', 'nb', 'intranet')):
         sc = {'text': {'cookie': 'domain:%s:%s:%s' % (setter, target, domain)}, 'use': 'cookie',
               'text_class': 'cookie=domain-attribute-%s-%s' % (setter, domain)}
         runs.append(('text/cookie', sc, run_domain_cookie_case(setter, target, domain)))
